@@ -5,6 +5,7 @@ import (
 	"errors"
 	"fmt"
 	"math/rand"
+	"slices"
 	"strings"
 	"sync"
 	"time"
@@ -521,6 +522,18 @@ func (d *dealer) syncRegister(callee *wamp.Session, msg *wamp.Register, match, i
 		}
 
 		regID = reg.id
+
+		// A callee that registers the same procedure again gets its existing
+		// registration. It must not be listed as callee twice: one entry
+		// would remain after it unregisters or leaves, and the next call
+		// would be sent to a session that is gone.
+		if slices.Contains(reg.callees, callee) {
+			d.trySend(callee, &wamp.Registered{
+				Request:      msg.Request,
+				Registration: regID,
+			})
+			return metaPubs
+		}
 
 		// Add callee for the registration.
 		reg.callees = append(reg.callees, callee)
